@@ -45,6 +45,7 @@ type caseState struct {
 	openID    map[int]uint64    // op index -> identifier its open message carries
 	deadlines map[string]int    // "<side>/<id>/<r|w>" -> absolute ms of an armed future deadline
 	muxClosed bool
+	queued    [2]int   // inbound streams delivered to a side and not yet taken by an accept
 	problems  []string // oracle findings (C25 exits)
 	counts    map[string]int
 }
@@ -74,6 +75,20 @@ func (cs *caseState) after(tok, out string) {
 	tr := cs.tr
 	if strings.Contains(out, "rej:") || strings.HasPrefix(out, "hung") {
 		cs.muxClosed = true
+	}
+	// accepts that completed in this step took one stream each out of the backlog
+	if parts := strings.Split(out, "|"); len(parts) >= 2 && parts[1] != "-" {
+		for _, c := range strings.Split(parts[1], ",") {
+			kv := strings.SplitN(c, "=", 2)
+			k, _ := strconv.Atoi(kv[0])
+			if kind, _ := tr.OpKind(k); kind == 'a' && len(kv) == 2 && strings.HasPrefix(kv[1], "ok:") {
+				cs.queued[tr.ops[k].side]--
+			}
+		}
+	}
+	if p[0] == "a" && len(p) >= 3 {
+		stale, _ := strconv.Atoi(p[2])
+		cs.queued[sideIndex(p[1])] -= stale
 	}
 	switch p[0] {
 	case "c":
@@ -138,6 +153,18 @@ func (cs *caseState) after(tok, out string) {
 		f, err := ParseFrame(p[2])
 		if err != nil {
 			return
+		}
+		if f.Kind == 1 && !tr.Injected && !cs.muxClosed { // open request
+			if cs.queued[side] >= tr.Cfg[side].Backlog {
+				// beyond the backlog: it must be refused, not left pending
+				held := tr.Stalled[side]
+				parts := strings.Split(out, "|")
+				if !held && (len(parts) < 4 || !strings.Contains(","+parts[2+side]+",", fmt.Sprintf(",6.%d,", f.ID))) {
+					cs.problem("class=backlog-not-rejected open of stream %d reached %s with a full backlog (%d) and was not answered with a close", f.ID, p[1], cs.queued[side])
+				}
+			} else {
+				cs.queued[side]++
+			}
 		}
 		if f.Kind == 6 && !tr.Injected { // remote close
 			if tr.InFlightOn(side, 'r', f.ID) || tr.InFlightOn(side, 'w', f.ID) {
